@@ -48,7 +48,7 @@ CHECKS = {
             "§5 C09"),
     "C08": ("model_checking",
             "exhaustive enumeration of operator programs (every operator of Table A.1 alone and in every ordered pair) against a reference interpreter, and of all Op sequences up to length 3 (longer over shorthand-sensitive sub-alphabets) through the real serializer and parser",
-            "The parser is checked against a harness-side transcription of the operator table including current-point tracking, for all 1- and 2-operator programs; the writer/reader pair is checked on every sequence of <=3 operations of a 62-symbol alphabet (every variant, shorthand triggers) and every sequence of 4..5 (thorough 6) over three sub-alphabets, plus boundary operand values.",
+            "The parser is checked against a harness-side transcription of the operator table including current-point tracking, for all 1- and 2-operator programs; the writer/reader pair is checked on every sequence of <=3 operations of the operation alphabet (every variant, shorthand triggers, names and tags containing the number sign) and every sequence of 4..5 (thorough 6) over three sub-alphabets, plus boundary operand values.",
             "Trusted: the reference interpreter (transcribed from ISO 32000-1 Table A.1 and 8.5.2). Known finding: d0/d1 have no Op.",
             "§5 C08"),
     "C19": ("model_checking",
@@ -68,7 +68,7 @@ CHECKS = {
             "§5 C06"),
     "C17": ("model_checking",
             "exhaustive enumeration of prefix lengths 1..1019 x filler kinds (and all byte values at 4 lengths) over generated and corpus files; differential comparison of a full read-everything walk with the unprefixed file",
-            "For six generated files every prefix length and 8 fillers are enumerated (and all 256 byte values at 4 lengths); corpus files at 14 boundary lengths (quick) / every length (thorough). Each prefixed file is walked completely (objects, stream data, pages, fonts, trees, trailer, recovery scan) and compared observation by observation with the walk of the unprefixed file.",
+            "For the generated files (classic, cross-reference stream with object stream, /Prev chains, small, entries at offset 0, linearized layout whose first section stands after the header with /Prev further down at two distances, RC4-encrypted) every prefix length and 8 fillers are enumerated (and all 256 byte values at 4 lengths); corpus files at 14 boundary lengths (quick) / every length (thorough). Each prefixed file is walked completely (objects, stream data, pages, fonts, trees, trailer, recovery scan) and compared observation by observation with the walk of the unprefixed file.",
             "Trusted: the walker's observation digest. Prefixes containing the header marker are excluded by the property.",
             "§5 C17"),
     "C07": ("model_checking",
